@@ -1122,8 +1122,21 @@ SEEDS = [
 ]
 
 
+def wrong_kind_cases(role):
+    """every (outstanding request kind, acknowledgement kind) pair with the SAME packet id: the acknowledgement of
+    the wrong type must end the connection cleanly, whatever the pair (25 pairs incl. the right ones)"""
+    out = []
+    for k, exp in ((1, 1), (2, 2), (3, 4), (4, 5), (7, 1)):
+        for a in (1, 2, 3, 4, 5, 6):
+            start = "1,1,%d,0" % k + (",4" if k == 7 else "")
+            out.append("2,%d;%s;4,%d,1;2,1;1,2,1,0;2,2" % (role, start, a))
+            out.append("2,%d;1,9,1,0;%s;4,1,1;2,9;4,%d,2;2,1" % (role, start, a))
+    return out
+
+
 def gen_all(rng, ver, role=0, exh_len=6, exh_limit=None, n_random=8000, n_qos2=800):
     cases = list(SEEDS) if role == 0 else [c.replace(",0;", ",%d;" % role, 1) for c in SEEDS]
+    cases += wrong_kind_cases(role)
     cases += exhaustive(ver, exh_len, role=role, limit=exh_limit, rng=rng, kinds=(1, 2, 5) if role == 0 else (1, 2, 3))
     cases += qos2_orders(rng, ver, role, n_qos2)
     cases += [rand_case(rng, ver, role) for _ in range(n_random)]
